@@ -198,4 +198,201 @@ example : areEquivalent exKey exDep [(1, 0, 5), (2, 0, 6)] [(2, 0, 6), (1, 0, 5)
 example : TraceEq exDep [(1, 0, 5), (2, 0, 6)] [(2, 0, 6), (1, 0, 5)] := .swap _ _ _ (by decide)
 example : areEquivalent exKey exDep [(1, 0, 5), (2, 0, 5)] [(2, 0, 5), (1, 0, 5)] = false := by decide
 
+
+/-! ### canonical form: the lexicographically least linearisation -/
+
+theorem mem_minimals (dep : α → α → Bool) (x : α) : ∀ (r pre : List α),
+    x ∈ minimals dep pre r ↔ ∃ p s, r = p ++ x :: s ∧ ∀ y ∈ pre ++ p, dep y x = false
+  | [], pre => by simp [minimals]
+  | c :: r, pre => by
+    simp only [minimals, List.mem_append]
+    rw [mem_minimals dep x r (pre ++ [c])]
+    constructor
+    · rintro (h | ⟨p, s, hr, hind⟩)
+      · split at h
+        · rename_i hall
+          simp only [List.mem_singleton] at h
+          subst h
+          refine ⟨[], r, rfl, ?_⟩
+          intro y hy
+          have hy' : y ∈ pre := by simpa using hy
+          simpa using List.all_eq_true.mp hall y hy'
+        · simp at h
+      · exact ⟨c :: p, s, by simp [hr], by simpa using hind⟩
+    · rintro ⟨p, s, hr, hind⟩
+      cases p with
+      | nil =>
+        simp only [List.nil_append, List.cons.injEq] at hr
+        obtain ⟨rfl, rfl⟩ := hr
+        left
+        have : pre.all (fun y => !dep y c) = true := by
+          rw [List.all_eq_true]; intro y hy; simp [hind y (by simpa using hy)]
+        simp [this]
+      | cons d p' =>
+        simp only [List.cons_append, List.cons.injEq] at hr
+        obtain ⟨rfl, rfl⟩ := hr
+        right
+        exact ⟨p', s, rfl, by simpa using hind⟩
+
+theorem pickMin_none (rank : α → Nat) : ∀ l : List α, pickMin rank l = none → l = []
+  | [], _ => rfl
+  | x :: r, h => by
+    simp only [pickMin] at h
+    split at h
+    · cases h
+    · split at h <;> cases h
+
+theorem pickMin_some (rank : α → Nat) : ∀ (l : List α) (a : α), pickMin rank l = some a →
+    a ∈ l ∧ ∀ y ∈ l, rank a ≤ rank y
+  | [], a, h => by simp [pickMin] at h
+  | x :: r, a, h => by
+    simp only [pickMin] at h
+    split at h
+    · rename_i hn
+      cases h
+      have := pickMin_none rank r hn
+      subst this
+      simp
+    · rename_i y hy
+      obtain ⟨hmem, hle⟩ := pickMin_some rank r y hy
+      split at h
+      · rename_i hxy
+        cases h
+        refine ⟨List.mem_cons_self, ?_⟩
+        intro z hz
+        cases hz with
+        | head => exact Nat.le_refl _
+        | tail _ hz => exact Nat.le_trans hxy (hle z hz)
+      · rename_i hxy
+        cases h
+        refine ⟨List.mem_cons_of_mem _ hmem, ?_⟩
+        intro z hz
+        cases hz with
+        | head => omega
+        | tail _ hz => exact hle z hz
+
+/-- `pickMin` only depends on the set of elements when `rank` is injective. -/
+theorem pickMin_congr (rank : α → Nat) (hinj : ∀ x y, rank x = rank y → x = y) (l1 l2 : List α)
+    (h : ∀ x, x ∈ l1 ↔ x ∈ l2) : pickMin rank l1 = pickMin rank l2 := by
+  cases h1 : pickMin rank l1 with
+  | none =>
+    have := pickMin_none rank l1 h1
+    subst this
+    cases h2 : pickMin rank l2 with
+    | none => rfl
+    | some b => exact absurd ((h b).mpr (pickMin_some rank l2 b h2).1) (by simp)
+  | some a =>
+    obtain ⟨ha, hla⟩ := pickMin_some rank l1 a h1
+    cases h2 : pickMin rank l2 with
+    | none =>
+      have := pickMin_none rank l2 h2
+      subst this
+      exact absurd ((h a).mp ha) (by simp)
+    | some b =>
+      obtain ⟨hb, hlb⟩ := pickMin_some rank l2 b h2
+      have h3 := hla b ((h b).mpr hb)
+      have h4 := hlb a ((h a).mp ha)
+      rw [hinj a b (by omega)]
+
+theorem erase_split [DecidableEq α] (a : α) (p s : List α) (h : a ∉ p) : (p ++ a :: s).erase a = p ++ s := by
+  rw [List.erase_append_right _ h]
+  simp
+
+theorem minimal_not_mem (dep : α → α → Bool) (hrefl : ∀ x, dep x x = true) (a : α) (p : List α)
+    (h : ∀ y ∈ p, dep y a = false) : a ∉ p := by
+  intro hm
+  have := h a hm
+  rw [hrefl] at this; cases this
+
+/-- The canonical form is a linearisation of the same trace. -/
+theorem canonAux_equiv [DecidableEq α] (dep : α → α → Bool) (rank : α → Nat)
+    (hrefl : ∀ x, dep x x = true) (hsym : ∀ x y, dep x y = dep y x) :
+    ∀ (fuel : Nat) (u : List α), u.length ≤ fuel → TraceEq dep (canonAux dep rank fuel u) u
+  | 0, u, h => by
+    have : u = [] := List.eq_nil_of_length_eq_zero (by omega)
+    subst this; exact .nil
+  | fuel + 1, u, h => by
+    simp only [canonAux]
+    split
+    · rename_i hn
+      have hm := pickMin_none rank _ hn
+      cases u with
+      | nil => exact .nil
+      | cons c r =>
+        have : c ∈ minimals dep [] (c :: r) := by
+          rw [mem_minimals]; exact ⟨[], r, rfl, by simp⟩
+        rw [hm] at this; simp at this
+    · rename_i a ha
+      obtain ⟨hmem, _⟩ := pickMin_some rank _ a ha
+      rw [mem_minimals] at hmem
+      obtain ⟨p, s, hu, hind⟩ := hmem
+      simp only [List.nil_append] at hind
+      have hnp := minimal_not_mem dep hrefl a p hind
+      subst hu
+      rw [erase_split a p s hnp]
+      have hlen : (p ++ s).length ≤ fuel := by simp at h ⊢; omega
+      have ih := canonAux_equiv dep rank hrefl hsym fuel (p ++ s) hlen
+      exact .trans (.cons a ih) ((TraceEq.move_front a p s hind).symm hsym)
+
+theorem canon_equiv [DecidableEq α] (dep : α → α → Bool) (rank : α → Nat)
+    (hrefl : ∀ x, dep x x = true) (hsym : ∀ x y, dep x y = dep y x) (u : List α) :
+    TraceEq dep (canon dep rank u) u :=
+  canonAux_equiv dep rank hrefl hsym u.length u (Nat.le_refl _)
+
+theorem minimals_equiv (dep : α → α → Bool) (hrefl : ∀ x, dep x x = true) (hsym : ∀ x y, dep x y = dep y x)
+    {u v : List α} (h : TraceEq dep u v) (x : α) (hx : x ∈ minimals dep [] u) : x ∈ minimals dep [] v := by
+  rw [mem_minimals] at hx ⊢
+  obtain ⟨p, s, hu, hind⟩ := hx
+  simp only [List.nil_append] at hind
+  obtain ⟨v1, v2, hv, _, hiv, _⟩ := TraceEq.split hrefl hsym h p x s hu (minimal_not_mem dep hrefl x p hind) hind
+  exact ⟨v1, v2, hv, by simpa using hiv⟩
+
+/-- The canonical form is invariant under independent swaps: equivalent words have the same canonical form. -/
+theorem canonAux_invariant [DecidableEq α] (dep : α → α → Bool) (rank : α → Nat)
+    (hrefl : ∀ x, dep x x = true) (hsym : ∀ x y, dep x y = dep y x) (hinj : ∀ x y, rank x = rank y → x = y) :
+    ∀ (fuel : Nat) (u v : List α), TraceEq dep u v → canonAux dep rank fuel u = canonAux dep rank fuel v
+  | 0, _, _, _ => rfl
+  | fuel + 1, u, v, h => by
+    have hset : ∀ x, x ∈ minimals dep [] u ↔ x ∈ minimals dep [] v :=
+      fun x => ⟨minimals_equiv dep hrefl hsym h x, minimals_equiv dep hrefl hsym (h.symm hsym) x⟩
+    have hpick := pickMin_congr rank hinj _ _ hset
+    simp only [canonAux, hpick]
+    split
+    · rfl
+    · rename_i a ha
+      obtain ⟨hmem, _⟩ := pickMin_some rank _ a ha
+      have hmemu := (hset a).mpr hmem
+      rw [mem_minimals] at hmemu
+      obtain ⟨p, s, hu, hind⟩ := hmemu
+      simp only [List.nil_append] at hind
+      have hnp := minimal_not_mem dep hrefl a p hind
+      obtain ⟨v1, v2, hv, hnv, _, heq⟩ := TraceEq.split hrefl hsym h p a s hu hnp hind
+      subst hu hv
+      rw [erase_split a p s hnp, erase_split a v1 v2 hnv]
+      rw [canonAux_invariant dep rank hrefl hsym hinj fuel _ _ heq]
+
+theorem canon_invariant [DecidableEq α] (dep : α → α → Bool) (rank : α → Nat)
+    (hrefl : ∀ x, dep x x = true) (hsym : ∀ x y, dep x y = dep y x) (hinj : ∀ x y, rank x = rank y → x = y)
+    {u v : List α} (h : TraceEq dep u v) : canon dep rank u = canon dep rank v := by
+  unfold canon
+  rw [h.length_eq]
+  exact canonAux_invariant dep rank hrefl hsym hinj v.length u v h
+
+/-- Completeness: two words are equivalent iff they have the same canonical form. -/
+theorem canon_complete [DecidableEq α] (dep : α → α → Bool) (rank : α → Nat)
+    (hrefl : ∀ x, dep x x = true) (hsym : ∀ x y, dep x y = dep y x) (hinj : ∀ x y, rank x = rank y → x = y)
+    (u v : List α) : TraceEq dep u v ↔ canon dep rank u = canon dep rank v := by
+  constructor
+  · exact canon_invariant dep rank hrefl hsym hinj
+  · intro h
+    have h1 := canon_equiv dep rank hrefl hsym u
+    have h2 := canon_equiv dep rank hrefl hsym v
+    rw [h] at h1
+    exact .trans (h1.symm hsym) h2
+
+/-- non-vacuity of the canonical form on the example alphabet -/
+def exRank (e : Nat × Nat × Nat) : Nat := (e.1 * 1000 + e.2.1) * 1000 + e.2.2
+example : canon exDep exRank [(2, 0, 6), (1, 0, 5), (2, 1, 6)] = [(1, 0, 5), (2, 0, 6), (2, 1, 6)] := by decide
+example : canon exDep exRank [(2, 0, 5), (1, 0, 5)] = [(2, 0, 5), (1, 0, 5)] := by decide
+
 end SgVerif.C40
